@@ -13,6 +13,7 @@ import (
 	netty "github.com/go-netty/go-netty"
 	"github.com/go-netty/go-netty/codec/format"
 	"github.com/go-netty/go-netty/codec/frame"
+	"github.com/go-netty/go-netty/transport"
 	"nvharness/mock"
 	"nvharness/rt"
 )
@@ -31,6 +32,7 @@ type c09Msg struct {
 func (m c09Msg) String() string { return fmt.Sprintf("mw:%s:%d:%d", m.kind, len(m.body), m.k) }
 
 type c09Scenario struct {
+	buffered int // > 0: queued channel over the library's write-buffered transport of this size
 	sync     bool
 	qcap     int
 	pipeline string // plain | delim | lf
@@ -130,6 +132,9 @@ func c09Codecs(kind string) netty.Pipeline {
 
 func genC09(rng *rand.Rand) *c09Scenario {
 	sc := &c09Scenario{sync: rng.Intn(2) == 0, qcap: []int{1, 2, 4, 8}[rng.Intn(4)], pipeline: []string{"plain", "plain", "delim", "delim", "lf", "varint", "varint+text", "packet"}[rng.Intn(8)]}
+	if !sc.sync && rng.Intn(4) == 0 {
+		sc.buffered = []int{16, 64, 512}[rng.Intn(3)]
+	}
 	nt := 2 + rng.Intn(2)
 	if rng.Intn(10) == 0 {
 		// a backlog of large packets: two-part messages of 70000 bytes, more than 64 KiB queued behind a stalled sender
@@ -198,12 +203,17 @@ func runC09Scenario(sc *c09Scenario, strat rt.Strategy) (*rt.Controller, *mock.T
 	netty.NvRT = c
 	defer func() { netty.NvRT = nil }()
 	tr := mock.NewTransport()
+	var trx transport.Transport = tr
+	if sc.buffered > 0 {
+		// what reaches the mock is what the connection under the library's buffered writer receives
+		trx = transport.NewTransport(tr, 0, sc.buffered)
+	}
 	pl := c09Pipeline(sc.pipeline)
 	var ch netty.Channel
 	if sc.sync {
-		ch = netty.NewChannel()(1, context.Background(), pl, tr, ctlExec{c})
+		ch = netty.NewChannel()(1, context.Background(), pl, trx, ctlExec{c})
 	} else {
-		ch = netty.NewAsyncWriteChannel(sc.qcap, true)(1, context.Background(), pl, tr, ctlExec{c})
+		ch = netty.NewAsyncWriteChannel(sc.qcap, true)(1, context.Background(), pl, trx, ctlExec{c})
 	}
 	netty.NvAttach(pl, ch)
 	for ti, ms := range sc.threads {
